@@ -125,7 +125,7 @@ theorem handleChan_total {m : Mux} {id : Nat} {c : Chan} {p : Bytes} {t : Nat} {
       · split at h
         · cases h; exact ⟨by simp, by simp, hl⟩
         · split at h
-          · cases h
+          · cases h; exact ⟨by simp, by simp, hl⟩
           · cases h; exact ⟨by simp, by simp, hl⟩
           · rename_i msg _
             split at h
@@ -315,7 +315,7 @@ theorem mux_total {m : Mux} {p : Bytes} {o : Outcome} {m' : Mux} {ev : Evs}
             · rename_i c hc
               exact handleChan_total hl hc h
             · split at h
-              · cases h
+              · cases h; exact ⟨by simp, by simp, hl⟩
               · cases h; exact ⟨by simp, by simp, hl⟩
               · split at h
                 · cases h; exact ⟨by simp, by simp, hl⟩
